@@ -1128,9 +1128,18 @@ fn struct_driver(out: &str, seed: u64, n: u64) {
             for i in 1..=9 {
                 r.act(json!({"op":"set_fixed_price","bank":format!("T{}", i),"price":"3/4"}));
             }
+            // a second user whose collateral is opened *after* the re-tagging, i.e. carries the staked tag
+            r.act(json!({"op":"deposit","acct":"L2","bank":staked.clone(),"amount":100_000_000u64}));
+            r.act(json!({"op":"borrow","acct":"L2","bank":"D","amount":63_000_000u64}));
             if rng.gen_bool(0.7) {
                 r.act(json!({"op":"deposit","acct":"Q","bank":"T10","amount":1000})); // default-class position on the liquidator
             }
+            for i in 1..=9 {
+                r.act(json!({"op":"set_fixed_price","bank":format!("T{}", i),"price":"3/4"}));
+            }
+            // (a staked-tag bank refuses set_fixed_price: make the second user unhealthy through the debt price instead)
+            r.act(json!({"op":"set_fixed_price","bank":"D","price":"3/2"}));
+            r.act(json!({"op":"liquidate","liquidator":"Q","liquidatee":"L2","asset_bank":staked.clone(),"liab_bank":"D","amount":1000}));
             r.act(liq(&staked, 1000));
             let other = format!("T{}", rng.gen_range(1..=9));
             r.act(liq(&other, 1000));
